@@ -12,6 +12,7 @@ CONSTANTS
   Record = FALSE
   Defect_NoArmOnSync = FALSE
   Defect_TakeoverKeepsOrigin = TRUE
+  Defect_EchoRemovesFlipped = FALSE
   Defect_ClientSetBeforeOwner = FALSE
 VIEW StateView
 PROPERTIES OwnedExpiredAfterSweep
